@@ -164,6 +164,8 @@ CURATED = [
     "x^(y)", "x^y^z", "(x^y)^z", "(2^3)^2", "((x^2)^3)^2", "(x^-2)^y", "3 / -((x + 1) * y)", "x^-((x + 1) * y)", "2 / -((x - 1) / y)", "-((x + 1) * y) / 3",
     "SGN(x)", "Sgn(2)", "sGn(x) + 1", "2SGN(x^2) = 1", "4 + Sgn(-3y)", "sgN x", "xy^2^3", "2x^2^3", "x^2^3^2", "xyz^2^y", "0.00005x + 1", "0.001 * 0.02", "0.0000004x",
     "9007199254740993x", "x^9007199254740993", "123456789012345678x^2",
+    "x / -(-4y)", "x^-(-2y)", "3 - -(-2x)", "2 * " + "1" * 40, "2" + "x" * 40, "(" + "7" * 35 + ")", "2 + " + "9" * 33 + "x", "3e-5x", "1e5 + 2", "2E3x", "4Sgn(x - 9)", "SGN + 1",
+    "3x + 4X", "xX", "aA + Aa", "X^2 + x^2", "Kk",
     "(-x)^2", "(2x)^2", "-(3^2)", "-(3^2 * x)", "-(2!)", "4 - -(x * y)", "(x / y) / z", "x / (y / z)", "x / (y * z)", "(x * y) / z", "x - (y - z)", "x - (y + z)", "(x+1)^(y-1)", "2^x y", "xy z^2 w", "3xyz", "-3xyz^2", "1 000", "1,000", "x_1", "x#", "٣", "é + 1",
 ]
 
@@ -177,6 +179,15 @@ def chains(ctx):
         out.append(" / ".join(["x"] * n))
         out.append("".join(["x"] * n))
         out.append(" = ".join(["x"] * min(n, 60)))
+    # long inputs that fail at their very end (error paths that render the input)
+    for n in (24, 25, 48, 49, 50, 64, 65, 100):
+        for op in (" * ", " / ", " - ", " + ", " ^ ", " = "):
+            body = op.join(["y"] * n)
+            out.append(body + op.rstrip())
+            out.append(body + op + "(")
+            out.append(body + op + "-")
+            out.append(body + " )")
+            out.append("(" + body)
     for d in ([10, 25] if ctx.quick else [10, 25, 40]):
         out.append("(" * d + "x" + ")" * d)
         out.append("".join("(x + " for _ in range(d)) + "1" + ")" * d)
